@@ -509,6 +509,18 @@ func TestC16Scripts(t *testing.T) {
 		s := &cliScript{}
 		var letNames, letTexts, letTextNames []string
 		kinds := ""
+		if rapid.IntRange(0, 9).Draw(rt, "rebindpattern") == 0 {
+			// a binding, a dependent one, a rebinding, and the first text again:
+			// every query sees the lets accepted so far, in order
+			a, b := rapid.IntRange(1, 9).Draw(rt, "reb1"), rapid.IntRange(10, 99).Draw(rt, "reb2")
+			q := cliStmt{"query", "T | where a > lim and b < high | count"}
+			first := cliStmt{"let", fmt.Sprintf("let lim = %d", a)}
+			dep := cliStmt{"let", "let high = lim * 100"}
+			s.Stmts = append(s.Stmts, first, dep, q, cliStmt{"let", fmt.Sprintf("let lim = %d", b)}, q, dep, q, first, q, dep, q)
+			letNames = append(letNames, "lim", "high")
+			letTexts, letTextNames = append(letTexts, first.Text, dep.Text), append(letTextNames, "lim", "high")
+			kinds += "LLQ*LQ*LQ*LQ*LQ*"
+		}
 		n := rapid.IntRange(0, 8).Draw(rt, "nstmts")
 		for i := 0; i < n; i++ {
 			k := rapid.IntRange(0, 11).Draw(rt, "stmtkind")
